@@ -484,6 +484,12 @@ def _alignment(prog, rep):
     sb = src(eb.node)
     ok = "for var in variables" in sb and "bounds.append((lb, ub))" in sb and "lb = var.lb" in sb and "ub = var.ub" in sb
     rep.pin('LP alignment', "R05.5", "extract_bounds", ok, "bounds[i] = (lb, ub) of variables[i]" if ok else "bounds are not (var.lb, var.ub) per variable in order", loc=eb.loc, detail="bounds")
+    from .common import bound_expr_problem
+    envb = {n.targets[0].id: n.value for n in walk_local(eb.node) if isinstance(n, ast.Assign) and isinstance(n.targets[0], ast.Name)}
+    for nm, v in envb.items():
+        prob_ = bound_expr_problem(v)
+        if any(isinstance(x, ast.Attribute) and x.attr in ("lb", "ub") for x in ast.walk(v)):
+            rep.ob("R05.5", "extract_bounds", prob_ is None, f"{nm} = {src(v)[:50]}: the declared bound, None only when it is None" if prob_ is None else prob_ + "; the LP is solved without that bound", loc=f"{eb.module.rel}:{v.lineno}", detail=f"bound-value:{nm}")
     ex = L.methods.get("extract")
     se = src(ex.node)
     ok = all(f"{k}={k}" in se for k in ("c", "sense", "A_ub", "b_ub", "A_eq", "b_eq", "bounds"))
